@@ -7,7 +7,7 @@
    so the validation never fails.  Not modelled: str::trim_end for non-ASCII white space (U+0085,
    U+00A0, ...), u64 overflow of chunk_start + 2*chunk_size (file sizes are far below 2^62), and
    the allocation Vec::with_capacity(chunks) for absurd chunk counts. *)
-From BT Require Import Base.Util.
+From BT Require Import Base.Util Model.FileView.
 Local Open Scope N_scope.
 
 Definition NL : N := 10.
@@ -73,3 +73,71 @@ Inductive chain : N -> list (N * N) -> N -> Prop :=
 (* offset p is the start of a line: the start of the file, or the byte before it is a newline *)
 Definition cut_ok (file : list N) (p : N) : Prop :=
   p = 0 \/ exists pre post, file = pre ++ NL :: post /\ p = Nlen pre + 1.
+
+(* ---- the line streams again, operationally: std's BufReader<FileView> as Read calls on the view ----
+   (std::io::BufReader::fill_buf / consume, std::io::read_until, and the `loop { read_line }` of the
+   readers).  A BufReader keeps the bytes of its last Read that were not consumed yet and issues one
+   Read, into its whole internal buffer, when and only when none are left.  The size of the k-th Read
+   is [sz k]: a BufReader has a constant capacity; the theorems hold for every schedule of sizes >= 1,
+   i.e. for any sequence of Read n calls a buffered reader may make.  read_line's UTF-8 validation
+   is outside the model (see the header). *)
+Record bufrd := mkBuf { b_view : view; b_buf : list N; b_fills : nat }.
+Definition buf_new (v : view) : bufrd := {| b_view := v; b_buf := []; b_fills := O |}.
+
+(* fill_buf: `if self.pos >= self.filled { self.inner.read(&mut self.buf) }` *)
+Definition fill_buf (file : list N) (sz : nat -> N) (r : bufrd) : res bufrd :=
+  match b_buf r with
+  | [] => do x <- view_read file (b_view r) (sz (b_fills r));
+          Ok {| b_view := snd x; b_buf := fst x; b_fills := S (b_fills r) |}
+  | _ :: _ => Ok r
+  end.
+
+(* memchr(b'\n', available): the bytes up to and including the first newline (all of them when there
+   is none), the bytes after it, and whether there is one *)
+Fixpoint upto_nl (l : list N) : list N * list N * bool :=
+  match l with
+  | [] => ([], [], false)
+  | x :: r => if x =? NL then ([x], r, true)
+              else let '(a, b, f) := upto_nl r in (x :: a, b, f)
+  end.
+
+(* std::io::read_until(r, b'\n', buf): loop { available = fill_buf; take up to the newline; consume;
+   if done || used == 0 { return } }.  [acc]: the bytes appended to buf so far. *)
+Fixpoint read_until_nl (fuel : nat) (file : list N) (sz : nat -> N) (r : bufrd) (acc : list N)
+  : res (list N * bufrd) :=
+  match fuel with
+  | O => Fuel
+  | S f =>
+      do r1 <- fill_buf file sz r;
+      let '(tk, rest, found) := upto_nl (b_buf r1) in
+      let r2 := {| b_view := b_view r1; b_buf := rest; b_fills := b_fills r1 |} in
+      if found || (match tk with [] => true | _ :: _ => false end) then Ok (acc ++ tk, r2)
+      else read_until_nl f file sz r2 (acc ++ tk)
+  end.
+
+(* loop { line.clear(); if read_line(&mut line)? == 0 { break }; yield line }: the raw lines *)
+Fixpoint read_lines (fuel : nat) (file : list N) (sz : nat -> N) (r : bufrd) : res (list (list N)) :=
+  match fuel with
+  | O => Fuel
+  | S f =>
+      do x <- read_until_nl fuel file sz r [];
+      match fst x with
+      | [] => Ok []
+      | l => do more <- read_lines f file sz (snd x); Ok (l :: more)
+      end
+  end.
+
+(* BufReader::new(FileView::new(file, a, b)?) read line by line to the end; fuel > file length is enough *)
+Definition view_lines (fuel : nat) (file : list N) (sz : nat -> N) (a b : N) : res (list (list N)) :=
+  do v <- view_new (Nlen file) a b; read_lines fuel file sz (buf_new v).
+Definition lines_fuel (file : list N) : nat := S (length file).
+
+(* the parallel path of bigwigaverageoverbed: one BufReader<FileView> per chunk; task i reads with the
+   size schedule [sz i] *)
+Fixpoint chunk_streams_from (i : nat) (fuel : nat) (file : list N) (sz : nat -> nat -> N) (cs : list (N * N))
+  : list (res (list (list N))) :=
+  match cs with
+  | [] => []
+  | ab :: r => view_lines fuel file (sz i) (fst ab) (snd ab) :: chunk_streams_from (S i) fuel file sz r
+  end.
+Definition chunk_streams := chunk_streams_from O.
